@@ -73,6 +73,7 @@ func cmdRun(args []string) int {
 	maxSteps := fs.Int64("max-steps", 20_000_000, "SSA steps per path")
 	trace := fs.Bool("trace", false, "trace instructions (use with -workers 1)")
 	cpuprof := fs.String("cpuprofile", "", "write cpu profile")
+	fixed := fs.String("choices", "", "comma-separated choices: deterministic concrete re-execution (inputs zero)")
 	if len(args) < 2 {
 		usage()
 	}
@@ -99,6 +100,31 @@ func cmdRun(args []string) int {
 	cfg.Harness = args[1]
 	cfg.PkgPath = args[0]
 	cfg.Verbose = true
+	if strings.HasSuffix(*fixed, ".json") {
+		b, err := os.ReadFile(*fixed)
+		if err != nil {
+			fmt.Fprintln(os.Stderr, err)
+			return 2
+		}
+		var rep struct {
+			Model   map[string]uint64
+			Choices []int `json:"all_choices"`
+		}
+		json.Unmarshal(b, &rep)
+		cfg.FixedModel = rep.Model
+		if cfg.FixedModel == nil {
+			cfg.FixedModel = map[string]uint64{}
+		}
+		cfg.FixedChoices = rep.Choices
+		cfg.Workers = 1
+	} else if *fixed != "" {
+		cfg.FixedModel = map[string]uint64{}
+		for _, c := range strings.Split(*fixed, ",") {
+			n, _ := strconv.Atoi(strings.TrimSpace(c))
+			cfg.FixedChoices = append(cfg.FixedChoices, n)
+		}
+		cfg.Workers = 1
+	}
 	traceAll = *trace
 	t0 := time.Now()
 	e := newExplorer(P, fn, cfg)
@@ -317,7 +343,7 @@ func writeReplayFile(v *Violation, property, pkgPath string, n int) string {
 	path := filepath.Join(verifRoot, "replays", fmt.Sprintf("%s-%s-%d.json", property, v.Harness, n))
 	rep := map[string]interface{}{
 		"property": property, "harness": v.Harness, "package": pkgPath, "label": v.Label,
-		"model": v.Model, "choices": v.Choices, "observe": v.Observe, "trace": v.Trace,
+		"model": v.Model, "choices": v.Choices, "all_choices": v.AllChoices, "observe": v.Observe, "trace": v.Trace,
 	}
 	writeJSON(path, rep)
 	v.Replay = path
